@@ -69,6 +69,8 @@ def gen_cases(rng, n_per_kind, n_perturb):
                 c['wlen'] = rng.randint(1, 4)
             else:
                 c['G'] = nondegenerate_cfg(rng)
+                if rng.random() < 0.35:
+                    c['cfg_eps'] = 'e'
             if 'D' in c and not c['D']['Q']:
                 continue
             cases.append(c)
@@ -194,6 +196,9 @@ def observe(c):
             f = wfile('x.nfa', ntext)
         if ex in ('accrej', 'cyk', 'deriv_left', 'deriv_right', 'deriv_any') or ex.startswith('chomsky'):
             gtext = conv.cfg_simple_text(c['G'])
+            if c.get('cfg_eps'):
+                # the grammar declares its own epsilon symbol
+                gtext = 'epsilon = %s\n' % c['cfg_eps'] + gtext.replace('_', c['cfg_eps'])
             f = wfile('x.cfg', gtext)
         # ---- own answer + checker
         if ex == 'words_dfa':
@@ -305,6 +310,12 @@ def observe(c):
             t = perturb_text(rng, t)
         if t != own:
             answers.append({'text': t, 'own': False})
+    if ex in ('deriv_left', 'deriv_right') and c['perturb'] and info.get('accepted'):
+        # a correct derivation in the other order (accepted only if the two coincide)
+        other = 'rightmost' if ex == 'deriv_left' else 'leftmost'
+        t = safe(mk.apply_command, 'cfg_%s_derivation' % other, [f, info['word']])
+        if ok(t):
+            answers.append({'text': t[1], 'own': False})
     if ex == 'cyk' and c['perturb']:
         # a table that is correct but covers only a prefix of the word (rows missing)
         for k in range(1, len(info['word'])):
